@@ -38,6 +38,9 @@ carquet_status_t carquet_column_index_add_page(carquet_column_index_builder_t*, 
 carquet_status_t carquet_column_index_page_might_match(const carquet_column_index_builder_t*, int32_t, const void*,
                                                        const void*, int32_t, bool*);
 typedef struct carquet_page_writer carquet_page_writer_t;
+void carquet_page_writer_reset(carquet_page_writer_t*);
+bool carquet_page_writer_get_statistics(const carquet_page_writer_t*, const uint8_t**, const uint8_t**, size_t*, int64_t*);
+int64_t carquet_page_writer_null_count(const carquet_page_writer_t*);
 carquet_page_writer_t* carquet_page_writer_create(carquet_physical_type_t, carquet_encoding_t, carquet_compression_t,
                                                   int16_t, int16_t, int32_t);
 void carquet_page_writer_destroy(carquet_page_writer_t*);
@@ -342,6 +345,76 @@ static void do_pm(void) {
     carquet_column_index_builder_destroy(b);
 }
 
+/* ------------------------------------------------------------------ pmw: column index built from real pages */
+/* pmw <type> <tlen> <maxdef> <pages> <idx> <qmin|N> <qmax|N>   pages joined by ";", a page = batches joined by ",",
+ * batch = <vals|->/<def levels|->/<num_values>.  Every page goes through carquet's page writer; what the page writer
+ * reports (null count, min/max or none) is handed to carquet_column_index_add_page (is_null_page = the page has no value);
+ * page_might_match is then asked about page <idx> and compared with the values that page really holds. */
+static void do_pmw(void) {
+    int type = atoi(h_tok[1]), tlen = atoi(h_tok[2]), maxdef = atoi(h_tok[3]), idx = atoi(h_tok[5]);
+    int hl = strcmp(h_tok[6], "N") != 0, hh = strcmp(h_tok[7], "N") != 0;
+    val_t lo = { NULL, 0, NULL }, hi = { NULL, 0, NULL };
+    if (hl) lo = unhex(h_tok[6]);
+    if (hh) hi = unhex(h_tok[7]);
+    carquet_page_writer_t* w = carquet_page_writer_create((carquet_physical_type_t)type, CARQUET_ENCODING_PLAIN,
+                                                          CARQUET_COMPRESSION_UNCOMPRESSED, (int16_t)maxdef, 0, tlen);
+    carquet_column_index_builder_t* b = carquet_column_index_builder_create((carquet_physical_type_t)type, tlen);
+    if (!w || !b) { puts("ERR oom"); return; }
+    fputs("OK pages=", stdout);
+    int pno = 0, any = 0;
+    char* sp = NULL;
+    for (char* pg = strtok_r(h_tok[4], ";", &sp); pg; pg = strtok_r(NULL, ";", &sp), pno++) {
+        long nonnull = 0; int wst = 0;
+        char* sb = NULL;
+        for (char* bt = strtok_r(pg, ",", &sb); bt; bt = strtok_r(NULL, ",", &sb)) {
+            char* fl[3]; int nf = 0; char* sv = NULL;
+            for (char* x = strtok_r(bt, "/", &sv); x && nf < 3; x = strtok_r(NULL, "/", &sv)) fl[nf++] = x;
+            if (nf != 3) continue;
+            val_t* v; int n = split_vals(fl[0], &v);
+            long nv = atol(fl[2]);
+            int16_t* defs = NULL;
+            if (strcmp(fl[1], "-")) {
+                size_t k = strlen(fl[1]);
+                defs = malloc(sizeof *defs * (k ? k : 1));
+                for (size_t i = 0; i < k; i++) defs[i] = (int16_t)(fl[1][i] - '0');
+            }
+            carquet_status_t st;
+            if (type == CARQUET_PHYSICAL_BYTE_ARRAY) {
+                carquet_byte_array_t* arr = malloc(sizeof *arr * (size_t)(n ? n : 1));
+                for (int i = 0; i < n; i++) { arr[i].data = v[i].p; arr[i].length = (int32_t)v[i].n; }
+                st = carquet_page_writer_add_values(w, arr, nv, defs, NULL);
+                free(arr);
+            } else {
+                size_t wd = n ? v[0].n : 0;
+                uint8_t* arr = malloc(wd * (size_t)n + 8);
+                for (int i = 0; i < n; i++) memcpy(arr + wd * (size_t)i, v[i].p, wd);
+                st = carquet_page_writer_add_values(w, arr, nv, defs, NULL);
+                free(arr);
+            }
+            if (st != CARQUET_OK) wst = (int)st;
+            nonnull += n;
+            if (pno == idx) for (int i = 0; i < n; i++) if (in_range(type, &v[i], hl ? &lo : NULL, hh ? &hi : NULL)) any = 1;
+            free(defs); free_vals(v, n);
+        }
+        const uint8_t* mn = NULL; const uint8_t* mx = NULL; size_t sz = 0; int64_t nc = 0;
+        bool has = carquet_page_writer_get_statistics(w, &mn, &mx, &sz, &nc);
+        int64_t nulls = carquet_page_writer_null_count(w);
+        carquet_status_t ast = carquet_column_index_add_page(b, nulls, has ? mn : NULL, has ? (int32_t)sz : 0,
+                                                             has ? mx : NULL, has ? (int32_t)sz : 0, nonnull == 0);
+        printf("%s%d:%d:%lld:", pno ? ";" : "", wst, (int)ast, (long long)nulls);
+        if (has) { h_puthex(mn, sz); putchar(':'); h_puthex(mx, sz); } else fputs("-:-", stdout);
+        carquet_page_writer_reset(w);
+    }
+    if (!pno) putchar('-');
+    bool m = true;
+    carquet_status_t st = carquet_column_index_page_might_match(b, idx, hl ? lo.p : NULL, hh ? hi.p : NULL,
+                                                                (int32_t)(hl ? lo.n : hi.n), &m);
+    printf(" m=%d:%d T=%d\n", (int)st, m ? 1 : 0, any);
+    free(lo.base); free(hi.base);
+    carquet_page_writer_destroy(w);
+    carquet_column_index_builder_destroy(b);
+}
+
 /* ------------------------------------------------------------------ file: the public writer, then the public reader */
 static void do_file(void) {
     int type = atoi(h_tok[1]), nullable = atoi(h_tok[2]), op = atoi(h_tok[4]);
@@ -443,6 +516,7 @@ int main(void) {
         else if (!strcmp(h_tok[0], "ovl") && h_ntok == 7) do_ovl();
         else if (!strcmp(h_tok[0], "pm") && h_ntok == 7) do_pm();
         else if (!strcmp(h_tok[0], "file") && (h_ntok == 6 || h_ntok == 7)) do_file();
+        else if (!strcmp(h_tok[0], "pmw") && h_ntok == 8) do_pmw();
         else puts("ERR unknown-op");
         fflush(stdout);
     }
